@@ -87,22 +87,22 @@ func (a *easm) bytes() []byte {
 
 // opcodes used below
 const (
-	opSTOP, opADD, opMUL, opSUB, opDIV           = 0x00, 0x01, 0x02, 0x03, 0x04
-	opLT, opGT, opEQ, opISZERO, opAND            = 0x10, 0x11, 0x14, 0x15, 0x16
-	opADDRESS, opBALANCE, opORIGIN, opCALLER     = 0x30, 0x31, 0x32, 0x33
-	opCALLVALUE, opCALLDATALOAD, opCALLDATASIZE  = 0x34, 0x35, 0x36
-	opCALLDATACOPY, opCODESIZE, opCODECOPY       = 0x37, 0x38, 0x39
-	opGASPRICE, opEXTCODESIZE, opRETURNDATASIZE  = 0x3a, 0x3b, 0x3d
-	opRETURNDATACOPY, opEXTCODEHASH              = 0x3e, 0x3f
+	opSTOP, opADD, opMUL, opSUB, opDIV            = 0x00, 0x01, 0x02, 0x03, 0x04
+	opLT, opGT, opEQ, opISZERO, opAND             = 0x10, 0x11, 0x14, 0x15, 0x16
+	opADDRESS, opBALANCE, opORIGIN, opCALLER      = 0x30, 0x31, 0x32, 0x33
+	opCALLVALUE, opCALLDATALOAD, opCALLDATASIZE   = 0x34, 0x35, 0x36
+	opCALLDATACOPY, opCODESIZE, opCODECOPY        = 0x37, 0x38, 0x39
+	opGASPRICE, opEXTCODESIZE, opRETURNDATASIZE   = 0x3a, 0x3b, 0x3d
+	opRETURNDATACOPY, opEXTCODEHASH               = 0x3e, 0x3f
 	opCOINBASE, opTIMESTAMP, opNUMBER, opGASLIMIT = 0x41, 0x42, 0x43, 0x45
-	opCHAINID, opSELFBALANCE                     = 0x46, 0x47
-	opPOP, opMLOAD, opMSTORE, opSLOAD, opSSTORE  = 0x50, 0x51, 0x52, 0x54, 0x55
-	opJUMP, opJUMPI, opGAS                       = 0x56, 0x57, 0x5a
-	opDUP1, opSWAP1                              = 0x80, 0x90
-	opLOG0                                       = 0xa0
-	opCREATE, opCALL, opRETURN, opDELEGATECALL   = 0xf0, 0xf1, 0xf3, 0xf4
-	opCREATE2, opSTATICCALL, opREVERT, opINVALID = 0xf5, 0xfa, 0xfd, 0xfe
-	opSELFDESTRUCT                               = 0xff
+	opCHAINID, opSELFBALANCE                      = 0x46, 0x47
+	opPOP, opMLOAD, opMSTORE, opSLOAD, opSSTORE   = 0x50, 0x51, 0x52, 0x54, 0x55
+	opJUMP, opJUMPI, opGAS                        = 0x56, 0x57, 0x5a
+	opDUP1, opSWAP1                               = 0x80, 0x90
+	opLOG0                                        = 0xa0
+	opCREATE, opCALL, opRETURN, opDELEGATECALL    = 0xf0, 0xf1, 0xf3, 0xf4
+	opCREATE2, opSTATICCALL, opREVERT, opINVALID  = 0xf5, 0xfa, 0xfd, 0xfe
+	opSELFDESTRUCT                                = 0xff
 )
 
 // ---- IR ---------------------------------------------------------------------
@@ -224,13 +224,13 @@ func bigPow2(n uint) *big.Int { return new(big.Int).Lsh(big.NewInt(1), n) }
 var abiDataTemplates = []abiTpl{
 	{sel: []byte{0x08, 0xc3, 0x79, 0xa0}, words: []*big.Int{big.NewInt(32), big.NewInt(5), new(big.Int).Lsh(big.NewInt(0x68656c6c6f), 216)}, size: 100}, // Error("hello")
 	{sel: []byte{0x08, 0xc3, 0x79, 0xa0}, words: []*big.Int{big.NewInt(32), big.NewInt(255)}, size: 68},                                                 // length beyond the data
-	{sel: []byte{0x08, 0xc3, 0x79, 0xa0}, words: []*big.Int{big.NewInt(32), new(big.Int).Sub(bigPow2(256), big.NewInt(1))}, size: 68},                    // length 2^256-1
+	{sel: []byte{0x08, 0xc3, 0x79, 0xa0}, words: []*big.Int{big.NewInt(32), new(big.Int).Sub(bigPow2(256), big.NewInt(1))}, size: 68},                   // length 2^256-1
 	{sel: []byte{0x08, 0xc3, 0x79, 0xa0}, words: []*big.Int{bigPow2(255), big.NewInt(1)}, size: 100},                                                    // offset 2^255
 	{sel: []byte{0x08, 0xc3, 0x79, 0xa0}, words: nil, size: 4},                                                                                          // selector only
 	{sel: []byte{0x08, 0xc3, 0x79, 0xa0}, words: []*big.Int{big.NewInt(32)}, size: 36},                                                                  // offset only
 	{sel: []byte{0x4e, 0x48, 0x7b, 0x71}, words: []*big.Int{big.NewInt(0x11)}, size: 36},                                                                // Panic(0x11)
-	{sel: []byte{0x08, 0xc3, 0x79, 0xa0}, words: []*big.Int{big.NewInt(32), big.NewInt(1 << 31), big.NewInt(7)}, size: 100},                              // 2 GiB string
-	{sel: []byte{0x08, 0xc3, 0x79, 0xa0}, words: []*big.Int{big.NewInt(64), big.NewInt(0), big.NewInt(40)}, size: 100},                                   // offset past the length word
+	{sel: []byte{0x08, 0xc3, 0x79, 0xa0}, words: []*big.Int{big.NewInt(32), big.NewInt(1 << 31), big.NewInt(7)}, size: 100},                             // 2 GiB string
+	{sel: []byte{0x08, 0xc3, 0x79, 0xa0}, words: []*big.Int{big.NewInt(64), big.NewInt(0), big.NewInt(40)}, size: 100},                                  // offset past the length word
 }
 
 func (a *easm) stmt(s *Stmt) {
@@ -258,8 +258,8 @@ func (a *easm) stmt(s *Stmt) {
 		if s.Bump {
 			a.push(0).op(opCALLDATALOAD).push(1).op(opADD).push(0).op(opMSTORE)
 		}
-		a.push(0).push(0)                 // retSize retOffset
-		a.op(opCALLDATASIZE).push(0)      // argsSize argsOffset
+		a.push(0).push(0)            // retSize retOffset
+		a.op(opCALLDATASIZE).push(0) // argsSize argsOffset
 		if s.K == "call" {
 			a.expr(s.Value)
 		}
